@@ -1,7 +1,8 @@
 """C06 -- deterministic partitioners give the same partition for every thread count."""
 PROP = dict(
     bin="c06",
-    run_targets=["Run/RunC06.vo"],
+    run_targets=["Run/RunC06.vo", "Run/RunKM.vo"],
+    extra_bins=[dict(bin="c06km", cases=dict(quick=640, thorough=2000))],
     prop_targets=["Properties/C06.vo"],
     cases=dict(quick=440, thorough=6000),
     level="proof",
@@ -10,15 +11,33 @@ PROP = dict(
          "case run under rayon pools 1,2,3,4,8,16 twice (12 runs) on integer-valued coordinates and weights (7 point families, 6 "
          "weight families, random mixed meshes); 3/4 of the inputs of the OBB-based algorithms have a power-of-two point count "
          "(the exact_obb premise); 1/6 of the Rcb/Rib inputs (1/60 of the others) have 8192..20000 points, 2/3 of them with pairwise distinct first coordinates in random order, so that rayon splits Rcb's fold into 2 resp. 4 chunks (large outputs are sent to Coq as differences from the first run); all 12 outputs are "
-         "compared in Coq (MultiJagged up to renaming); distinct = distinct case index; non-trivial = at least 4 elements",
+         "compared in Coq (MultiJagged up to renaming); distinct = distinct case index; non-trivial = at least 4 elements. "
+         "K-MEANS MODEL CASES (second binary c06km, 640 / 2000 cases, the cases of c02km): KMeans 2D/3D, every case under pools "
+         "1,2,3,4,8,16 twice; on integer-valued inputs the twelve partitions must be identical (this clause) and, when the rotation "
+         "matrix is validated and erode is off, equal to the partition of the binary64 model, whose checked run also evaluates the "
+         "exactness premise of C06_kmeans_sched_indep (class 102 = no flag)",
     class_names={0: "rcb2", 1: "rcb3", 2: "rib2", 3: "rib3", 4: "hilbert2", 5: "hilbert3", 6: "zcurve2", 7: "zcurve3",
-                 8: "kmeans2", 9: "multijagged2", 10: "dual"},
+                 8: "kmeans2", 9: "multijagged2", 10: "dual",
+                 100: "k-means model cases: not compared with the model (fractional / large / erode / rotation not validated)",
+                 101: "k-means model cases: model = implementation, schedule-sensitivity flag raised",
+                 102: "k-means model cases: model = implementation, no flag (every schedule of the model gives this partition)"},
     trusted_base=[
-        "axioms: none (every theorem of Properties/C06.v is closed under the global context)",
+        "axioms: C06_hilbert_sched_indep_proved (through C09's f64_add_exact) and the k-means theorems C06_kmeans_sched_indep, "
+        "C06_kmeans_sched_indep_int_inputs, C06_kmeans_checked_run, C06_kmeans_f64_sums_exact use Flocq's "
+        "Bplus_correct (f64 + is exact on integers below 2^53) and therefore the axioms of Coq's classical real numbers "
+        "(ClassicalDedekindReals.sig_forall_dec, ClassicalDedekindReals.sig_not_dec, "
+        "FunctionalExtensionality.functional_extensionality_dep, Classical_Prop.classic); every other theorem of Properties/C06.v "
+        "is closed under the global context",
+        "Flocq 4.1 (through Proofs/KMeansF64Sum.v for the k-means theorems, through C09's SfcFloat proofs for C06_hilbert_sched_indep_proved)",
+        "KMeans: whole-algorithm schedule independence of the concrete binary64 model (Model/KMeans.v), given the rotation matrix "
+        "(input of the model) and under the exactness flag of the checked run: sums over integers whose absolute values add up "
+        "to at most 2^53, max_by / min_by over lists without NaN and without both zeros, bounding box over values other than NaN "
+        "and -0.0; the flag is a dynamic premise (evaluated on every correspondence case), erode's HashMap order is the same on "
+        "both sides; model = code on final partitions of the sampled runs",
         "rayon: fold/reduce/collect preserve index order and call the closures on the pieces of SOME recursive split of the index "
         "range (the split-tree model of Lib/Rayon.v); par_sort_unstable takes no timing-dependent decision",
-        "named float assumption, a PREMISE of C06_hilbert_sched_indep and not proved from SpecFloat: f64_add_exact_on_integers "
-        "(f64 `+` is exact on non-negative integers with sum <= 2^53; DESIGN §6)",
+        "named float assumption f64_add_exact_on_integers (f64 `+` is exact on non-negative integers with sum <= 2^53; DESIGN §6): "
+        "a PREMISE of C06_hilbert_sched_indep (kept, axiom-free) and PROVED in C06_hilbert_sched_indep_proved (C09, Flocq)",
         "the theorems are about the parallel skeletons and about the algorithm models of C18 (dual graph), C16 (part loads), "
         "C03 (Rcb / Rib, whole algorithm), C11 (MultiJagged), C09 (HilbertCurve given the curve indices, ZCurve), derived from "
         "those files' property theorems by name, for every split tree / write order / block decomposition / leaf order; what "
@@ -26,7 +45,8 @@ PROP = dict(
         "NOT proved: ZCurve beyond 'every sort oracle yields runs of the same cell codes'; MultiJagged in binary64 beyond the "
         "leaf order (whole-algorithm independence is proved at exact arithmetic only) and on inputs with coincident "
         "coordinates its result depends on the sort's tie order (a witness is C11_sort_ties_can_change_the_partition; "
-        "rayon's sort being a function of the slice is trusted); KMeans; the OBB step (rotation, curve indices, quadrants) of "
+        "rayon's sort being a function of the slice is trusted); KMeans without the dynamic exactness flag (no static "
+        "sufficient condition on the input is proved) and with erode; the OBB step (rotation, curve indices, quadrants) of "
         "Rib / HilbertCurve / ZCurve, which is data to the models; Rcb's weights are modelled as exact integers",
         "the harness decides the exactness premise (integer inputs; power-of-two point count for the OBB-based algorithms)",
     ],
@@ -48,13 +68,16 @@ MANIFEST = dict(
          "<= 2^53 (named assumption: f64 + exact on such integers); MultiJagged at exact arithmetic: any two block "
          "decompositions and leaf orders give the same partition up to renaming (whole algorithm), for every arithmetic any "
          "two leaf orders do, and the sort's tie order is irrelevant when no two points share a coordinate (with ties it can "
-         "change the partition); ZCurve: every sort oracle yields runs of the same cell codes (partial). Each case of the harness runs the real entry point under six pool sizes twice and the exact all-equal "
+         "change the partition); ZCurve: every sort oracle yields runs of the same cell codes (partial); KMeans (concrete binary64 model of k_means.rs, "
+         "whole algorithm, given the rotation matrix): any two families of split trees give the same partition whenever the checked run "
+         "raises no exactness flag (sums of integers below 2^53, comparisons without NaN / mixed zeros), the flag being evaluated on every "
+         "case next to the comparison of the model with the implementation's twelve outputs. Each case of the harness runs the real entry point under six pool sizes twice and the exact all-equal "
          "checker (up to renaming for MultiJagged) compares the twelve outputs. Pool-size dependence of the OBB-based algorithms on "
          "inputs whose point count is not a power of two is a known finding (inexact inertia sums).",
     design_ref="DESIGN.md §7 C06",
     note="PARTIAL by construction: theorems quantify over split trees of the model; real work-stealing schedules are sampled "
          "(12 runs per case). Whole-algorithm equality is proved for the dual graph, the load / imbalance functions, Rcb / Rib, "
-         "HilbertCurve (given indices) and MultiJagged at exact arithmetic; ZCurve, MultiJagged in binary64 and KMeans remain "
-         "partial (named _partial).",
+         "HilbertCurve (given indices), MultiJagged at exact arithmetic and KMeans (binary64, given the rotation, under a dynamic exactness "
+         "flag); ZCurve and MultiJagged in binary64 remain partial (named _partial).",
     technique="Coq proof (split-tree skeleton theorems) + all-equal checker on implementation runs across pool sizes and repetitions",
 )
